@@ -86,26 +86,30 @@ Ltac eqb_cases :=
          | |- context [Nat.eqb ?a ?b] => destruct (Nat.eqb a b) eqn:?; norm
          end.
 
-Lemma define_eq_spec_partial : forall ext ex d,
-  desc_wf d = true -> oiprop_wf ex = true -> in_F1 ex d = false -> in_N2 ex d = false ->
-  option_map absP (GojaDefine fx_none ext ex d) = ValidateAndApply ext (option_map absP ex) d.
+(* the current tree (F1 and N2 repaired): the table IS the specification's, for every existing property
+   satisfying the representation invariant and every partial descriptor *)
+Lemma define_eq_spec : forall ext ex d,
+  desc_wf d = true -> oiprop_wf ex = true ->
+  option_map absP (GojaDefine fx_cur ext ex d) = ValidateAndApply ext (option_map absP ex) d.
 Proof.
-  intros ext ex d Hwf Hex H1 H2.
+  intros ext ex d Hwf Hex.
   split_desc d Hwf; split_ex ex Hex;
-    destruct de as [[|]|]; destruct dc as [[|]|]; destruct ext;
-    cbv in H1, H2; try discriminate H1; try discriminate H2; clear;
+    destruct de as [[|]|]; destruct dc as [[|]|]; destruct ext; clear;
     norm; eqb_cases; reflexivity.
 Qed.
 
-(* the carved-out regions are exactly where the two differ *)
-Lemma define_guard_exact : forall ext ex d,
-  desc_wf d = true -> oiprop_wf ex = true -> in_F1 ex d || in_N2 ex d = true ->
-  option_map absP (GojaDefine fx_none ext ex d) <> ValidateAndApply ext (option_map absP ex) d.
+(* the two regions in which the tree before commits 7dd46dd and 8a03683 differed, kept as the exact
+   characterisation of what those repairs changed (a regression shows up as corpus cases known_F1/N2) *)
+Lemma define_prefix_tree_differs_exactly : forall ext ex d,
+  desc_wf d = true -> oiprop_wf ex = true ->
+  (in_F1 ex d || in_N2 ex d = true <->
+   option_map absP (GojaDefine fx_none ext ex d) <> option_map absP (GojaDefine fx_cur ext ex d)).
 Proof.
-  intros ext ex d Hwf Hex H.
+  intros ext ex d Hwf Hex.
   split_desc d Hwf; split_ex ex Hex;
-    destruct de as [[|]|]; destruct dc as [[|]|]; destruct ext;
-    cbv in H; try discriminate H; clear; norm; discriminate.
+    destruct de as [[|]|]; destruct dc as [[|]|]; destruct ext; clear;
+    norm; eqb_cases; split; intro H; try discriminate H; try reflexivity;
+    try (exfalso; apply H; reflexivity); try (intro Q; discriminate Q).
 Qed.
 
 (* with the four repairs of _defineOwnProperty switched on the table is the specification's, and the
@@ -130,8 +134,8 @@ Ltac eqb_cases_in H :=
 (* on the current tree the representation invariant is kept outside N1 and N3 ... *)
 Lemma define_wf_partial : forall ext ex d,
   desc_wf d = true -> oiprop_wf ex = true ->
-  in_N1 fx_none ext ex d = false -> in_N3 fx_none ext ex d = false ->
-  oiprop_wf (GojaDefine fx_none ext ex d) = true.
+  in_N1 fx_cur ext ex d = false -> in_N3 fx_cur ext ex d = false ->
+  oiprop_wf (GojaDefine fx_cur ext ex d) = true.
 Proof.
   intros ext ex d Hwf Hex H1 H3.
   split_desc d Hwf; split_ex ex Hex;
@@ -144,8 +148,8 @@ Qed.
 (* ... and broken inside *)
 Lemma define_wf_guard_exact : forall ext ex d,
   desc_wf d = true -> oiprop_wf ex = true ->
-  in_N1 fx_none ext ex d || in_N3 fx_none ext ex d = true ->
-  oiprop_wf (GojaDefine fx_none ext ex d) = false.
+  in_N1 fx_cur ext ex d || in_N3 fx_cur ext ex d = true ->
+  oiprop_wf (GojaDefine fx_cur ext ex d) = false.
 Proof.
   intros ext ex d Hwf Hex H.
   split_desc d Hwf; split_ex ex Hex;
@@ -154,34 +158,24 @@ Proof.
     norm; eqb_cases; try reflexivity; congruence.
 Qed.
 
-(* refutations of the full-strength statements, by computation on explicit witnesses *)
+(* refutations of "define keeps the representation invariant", by computation on explicit witnesses *)
 Definition f1_existing := IProp (mkVP None false false false true (Some 0) None).
 Definition f1_desc := mkDesc None (Some false) None None None None.
-Lemma define_refuted :
-  exists ext ex d, desc_wf d = true /\ oiprop_wf ex = true /\
-    option_map absP (GojaDefine fx_none ext ex d) <> ValidateAndApply ext (option_map absP ex) d.
-Proof. exists true, (Some f1_existing), f1_desc. vm_compute. repeat split; discriminate. Qed.
-
 Definition n2_existing := IProp (mkVP (Some (VNum 1)) false false false false None None).
 Definition n2_desc := mkDesc None None (Some None) None None None.
-Lemma define_undefined_getter_refuted :
-  desc_wf n2_desc = true /\ oiprop_wf (Some n2_existing) = true /\
-  option_map absP (GojaDefine fx_none true (Some n2_existing) n2_desc) = Some (PAcc None None false false) /\
-  ValidateAndApply true (Some (absP n2_existing)) n2_desc = None.
-Proof. vm_compute. repeat split. Qed.
 
 (* N1 as a two-step history on one property: data(writable) -> accessor -> {value} *)
-Definition n1_step1 := GojaDefine fx_none true (Some (IBare (VNum 1))) (mkDesc None None (Some (Some 0)) None None None).
+Definition n1_step1 := GojaDefine fx_cur true (Some (IBare (VNum 1))) (mkDesc None None (Some (Some 0)) None None None).
 Lemma define_hidden_writable_refuted :
   exists ip, n1_step1 = Some ip /\ iprop_wf ip = false /\
-    option_map absP (GojaDefine fx_none true (Some ip) (d_value_only (VNum 2))) = Some (PData (VNum 2) true true true) /\
+    option_map absP (GojaDefine fx_cur true (Some ip) (d_value_only (VNum 2))) = Some (PData (VNum 2) true true true) /\
     ValidateAndApply true (Some (absP ip)) (d_value_only (VNum 2)) = Some (PData (VNum 2) false true true).
 Proof. eexists. vm_compute. repeat split. Qed.
 
 (* N3: accessor -> {writable:true} keeps the getter *)
 Definition n3_existing := IProp (mkVP None false true false true (Some 0) None).
 Lemma define_stale_getter_refuted :
-  exists p, GojaDefine fx_none true (Some n3_existing) (mkDesc None (Some true) None None None None) = Some (IProp p)
+  exists p, GojaDefine fx_cur true (Some n3_existing) (mkDesc None (Some true) None None None None) = Some (IProp p)
             /\ vp_accessor p = false /\ vp_getter p = Some 0 /\ vprop_wf p = false.
 Proof. eexists. vm_compute. repeat split. Qed.
 
